@@ -502,6 +502,36 @@ pub fn conc_record(args: &Args) -> i32 {
         }
         build_file(&segs, &big, &small, &mut rng).bytes
     }).collect();
+    // one large file (more than 4 MiB once expanded) among the small ones, streams made from one
+    // text with different window sizes (same hash function, different estimated windows): whatever
+    // a call might leave behind in its thread differs between these
+    let mut files = files;
+    {
+        let mut text: Vec<u8> = Vec::new();
+        let words: Vec<Vec<u8>> = (0..400).map(|_| (0..rng.range(2, 10)).map(|_| b'a' + rng.below(26) as u8).collect()).collect();
+        while text.len() < (5 << 20) + 4096 {
+            let wi = rng.below(words.len() as u64) as usize;
+            text.extend_from_slice(&words[wi]);
+            text.push(b' ');
+        }
+        let mut f = crate::gen::junk(&mut rng, 300);
+        f.extend_from_slice(&crate::gen::wrap_zlib(&crate::gen::zlib_raw(&text, 6, 0, 15, 8), &text, 2));
+        f.extend_from_slice(&crate::gen::junk(&mut rng, 100));
+        files.push(f);
+    }
+    let mut streams: Vec<Vec<u8>> = big.iter().map(|b| b.stream.clone()).collect();
+    {
+        let mut text: Vec<u8> = Vec::new();
+        while text.len() < 150_000 {
+            let (_, p) = crate::gen::plaintext(&mut rng, 40000);
+            text.extend_from_slice(&p);
+        }
+        for w in [10, 15, 9, 12] {
+            streams.push(crate::gen::zlib_raw(&text, 6, 0, w, 8));
+        }
+    }
+    let nin = |f: usize| if f == 2 || f == 3 { streams.len() } else { files.len() };
+    const NFN: usize = 6;
     // function f on input x -> result hash
     let call = |f: usize, x: usize| -> u64 {
         let r = guarded(|| match f {
@@ -511,24 +541,65 @@ pub fn conc_record(args: &Args) -> i32 {
                 let mut o = Vec::new();
                 match recreated_zlib_chunks(&mut std::io::Cursor::new(&c), &mut o) { Ok(()) => fnv(&o), Err(_) => 2 }
             }
-            2 => match decompress_deflate_stream(&big[x % big.len()].stream, x % 2 == 0, 0) {
+            2 => match decompress_deflate_stream(&streams[x], x % 2 == 0, 0) {
                 Ok(r) => fnv(&r.plain_text) ^ fnv(&r.prediction_corrections).rotate_left(17) ^ r.compressed_size as u64,
                 Err(_) => 3,
             },
-            _ => match decompress_deflate_stream(&big[x % big.len()].stream, false, 0) {
+            3 => match decompress_deflate_stream(&streams[x], false, 0) {
                 Ok(r) => recompress_deflate_stream(&r.plain_text, &r.prediction_corrections).map(|v| fnv(&v)).unwrap_or(4),
                 Err(_) => 5,
+            },
+            4 => compress_zstd(&files[x], 0).map(|v| fnv(&v)).unwrap_or(7),
+            _ => match compress_zstd(&files[x], 0) {
+                Ok(z) => decompress_zstd(&z, 64 << 20).map(|v| fnv(&v)).unwrap_or(8),
+                Err(_) => 9,
             },
         });
         r.unwrap_or(6)
     };
     let mut out = std::io::BufWriter::new(std::fs::File::create(args.req("out")).unwrap());
-    writeln!(out, "{}", event("Reset", json!({"run":0,"threads":threads,"inputs":ninputs}))).unwrap();
-    let mut seq = vec![vec![0u64; ninputs]; 4];
-    for f in 0..4 {
-        for x in 0..ninputs {
-            seq[f][x] = call(f, x);
-            writeln!(out, "{}", event("Seq", json!({"fn":f,"x":x,"hash":format!("{:016x}", seq[f][x])}))).unwrap();
+    writeln!(out, "{}", event("Reset", json!({"run":0,"threads":threads,"inputs":ninputs,"files":files.len(),"streams":streams.len()}))).unwrap();
+    // reference: every call on a thread of its own, with no history
+    for f in 0..NFN {
+        for x in 0..nin(f) {
+            let h = std::thread::scope(|s| s.spawn(|| call(f, x)).join().unwrap_or(6));
+            writeln!(out, "{}", event("Fresh", json!({"fn":f,"x":x,"hash":format!("{:016x}", h)}))).unwrap();
+        }
+    }
+    // the main thread, one call after the other
+    for f in 0..NFN {
+        for x in 0..nin(f) {
+            let h = call(f, x);
+            writeln!(out, "{}", event("Seq", json!({"fn":f,"x":x,"hash":format!("{:016x}", h)}))).unwrap();
+        }
+    }
+    // histories: a few long-lived threads, each running every call in an order of its own, twice
+    // over (so that every call also runs after every other call)
+    {
+        let pairs: Vec<(usize, usize)> = (0..NFN).flat_map(|f| (0..nin(f)).map(move |x| (f, x))).collect();
+        let nhist = args.num("histories", 3) as usize;
+        let orders: Vec<Vec<(usize, usize)>> = (0..nhist).map(|_| {
+            let mut o = pairs.clone();
+            for i in (1..o.len()).rev() { let j = rng.below(i as u64 + 1) as usize; o.swap(i, j); }
+            let mut twice = o.clone();
+            twice.extend_from_slice(&o);
+            twice
+        }).collect();
+        let hlog: Mutex<Vec<Value>> = Mutex::new(Vec::new());
+        std::thread::scope(|s| {
+            for (t, order) in orders.iter().enumerate() {
+                let hlog = &hlog;
+                let call = &call;
+                s.spawn(move || {
+                    for (k, &(f, x)) in order.iter().enumerate() {
+                        let h = call(f, x);
+                        hlog.lock().unwrap().push(json!({"t":t,"fn":f,"x":x,"round":-2,"rep":k,"hash":format!("{:016x}", h)}));
+                    }
+                });
+            }
+        });
+        for e in hlog.lock().unwrap().iter() {
+            writeln!(out, "{}", event("End", e.clone())).unwrap();
         }
     }
     // repeatability first: many small streams with unusual compressor settings (where the
@@ -563,7 +634,7 @@ pub fn conc_record(args: &Args) -> i32 {
         for t in 0..threads {
             // rounds 0-3: every thread the same function (round = function) on inputs dealt out
             // in turn, so that calls of one kind overlap; later rounds: random mixes
-            plan.push(if round < 4 { (round, t % ninputs) } else { (rng.below(4) as usize, rng.below(ninputs as u64) as usize) });
+            plan.push(if round < NFN { (round, t % nin(round)) } else { let f = rng.below(NFN as u64) as usize; (f, rng.below(nin(f) as u64) as usize) });
         }
         std::thread::scope(|s| {
             for t in 0..threads {
